@@ -26,3 +26,15 @@ def efficiencies_agree_on_binary(G):
     Ew = efficiency_wei(G, False)
     Eb = efficiency_bin(G, False)
     return Ew, Eb
+
+
+def cores_are_nested_bu(CIJ, k):
+    B, kb = kcore_bu(CIJ, k + 1)
+    A, ka = kcore_bu(CIJ, k)
+    return A, B
+
+
+def cores_are_nested_bd(CIJ, k):
+    B, kb = kcore_bd(CIJ, k + 1)
+    A, ka = kcore_bd(CIJ, k)
+    return A, B
